@@ -301,6 +301,22 @@ func (ba *flatBlobAccess) GetFromComposite(ctx context.Context, parentDigest, ch
 		}
 		ba.refreshesBlobsDurationGetFromComposite.Observe(time.Since(refreshStart).Seconds())
 		ba.refreshesBlobsGetFromComposite.Observe(1)
+	} else {
+		// The lock was dropped while slicing. Block rotations
+		// that happened in the meantime invalidate the block
+		// index of the location obtained previously.
+		parentLocation, err = ba.keyLocationMap.Get(parentKey)
+		if err != nil {
+			// The parent object disappeared in the meantime.
+			// The child object can still be returned, but no
+			// entries can be created for it.
+			ba.lock.Unlock()
+			if status.Code(err) == codes.NotFound {
+				return bChild
+			}
+			bChild.Discard()
+			return buffer.NewBufferFromError(err)
+		}
 	}
 
 	// Create key-location map entries for each of the slices. This
